@@ -204,6 +204,7 @@ var labels = map[string]string{
 	"mlc": "bracket-continued-with-comment-line", "mls": "triple-quoted-string", "bs": "backslash-continued",
 	"mle": "bracket-continued-with-empty-line", "mlse": "triple-quoted-string-with-empty-line",
 	"mlsw": "triple-quoted-string-with-blank-line", "cstr": "block-with-string-with-empty-line",
+	"icomment": "indented-comment-line", "tcomment": "tab-indented-comment-line",
 	"semi": "two-statements-one-line", "semiecho": "expression-and-assignment-one-line", "indented": "indented-at-primary-prompt",
 	"trail": "trailing-comment", "trailws": "trailing-whitespace", "pass": "pass", "oneline": "one-line-compound",
 	"tryexc": "try-except-block", "tryfin": "try-finally-block", "elif": "if-elif-else-block", "tabblk": "tab-indented-block",
